@@ -108,6 +108,8 @@ int main(int argc, char** argv) {
                 if (t == "pip") cons.push_back(Constraint::PointInPlane(b1, axisOf(k["n"]), k["h"].dbl(), mb[(int)k["b2"].num()], vec(k["st"])));
                 else if (t == "cang") cons.push_back(Constraint::ConstantAngle(b1, axisOf(k["a1"]), mb[(int)k["b2"].num()], axisOf(k["a2"]), std::acos(k["cosn"].dbl() / std::pow(5.0, k["cose"].dbl()))));
                 else if (t == "cspeed") cons.push_back(Constraint::ConstantSpeed(b1, MobilizerUIndex((int)k["k"].num() - 1), k["s"].dbl()));
+                else if (t == "ccoord") cons.push_back(Constraint::ConstantCoordinate(b1, MobilizerQIndex((int)k["k"].num() - 1), k["s"].dbl()));
+                else if (t == "cacc") cons.push_back(Constraint::ConstantAcceleration(b1, MobilizerUIndex((int)k["k"].num() - 1), k["s"].dbl()));
                 else if (t == "rod") cons.push_back(Constraint::Rod(b1, vec(k["st"]), mb[(int)k["b2"].num()], vec(k["st2"]), k["d"].dbl()));
                 else throw std::runtime_error("unknown constraint type " + t);
                 cons.back().setDisabledByDefault(true);
@@ -432,7 +434,7 @@ int main(int argc, char** argv) {
                     const Constraint& ck = cons[ownerOf(k)]; const int eq = eqOf(k);
                     int mp, mv, ma; ck.getNumConstraintEquationsInUse(sc, mp, mv, ma);
                     const Vector pe = ck.getPositionErrorsAsVector(sc), ve = ck.getVelocityErrorsAsVector(sc);
-                    js << "{\"mp\":" << mp << ",\"mv\":" << mv << ",\"perr\":" << num(mp ? pe[eq] : 0.0) << ",\"verr\":" << num(ve[eq]) << "}";
+                    js << "{\"mp\":" << mp << ",\"mv\":" << mv << ",\"perr\":" << num(mp ? pe[eq] : 0.0) << ",\"verr\":" << num(ve.size() ? ve[eq] : 0.0) << "}";
                 }
                 js << "]";
                 Matrix G; matter.calcG(sc, G);
@@ -462,7 +464,7 @@ int main(int argc, char** argv) {
                     js << ",\"cbiasU2\":["; for (int r = 0; r < m; ++r) js << (r ? "," : "") << num(bias2[r]);
                     js << "],\"verrU2\":[";
                     bool first = true;
-                    for (size_t k = 0; k < cons.size(); ++k) { if (!c["cons"][(int)k]["on"].num()) continue; js << (first ? "" : ",") << num(cons[ownerOf(k)].getVelocityErrorsAsVector(sc2)[eqOf(k)]); first = false; }
+                    for (size_t k = 0; k < cons.size(); ++k) { if (!c["cons"][(int)k]["on"].num()) continue; const Vector v2 = cons[ownerOf(k)].getVelocityErrorsAsVector(sc2); js << (first ? "" : ",") << num(v2.size() ? v2[eqOf(k)] : 0.0); first = false; }
                     js << "]";
                     // back to the first speeds for the dynamics below
                     for (int i = 0; i < N; ++i) for (int k = 0; k < mb[i + 1].getNumU(sc2); ++k) mb[i + 1].setOneU(sc2, k, c["u"][i][k].dbl());
